@@ -68,11 +68,18 @@ var specialInts = []int{math.MinInt, math.MaxInt, -1, 1, 1<<53 + 1, -(1<<53 + 1)
 // Version 0: the pools without the hash-collision pairs (12 entries each, appended last).
 var curPool int
 
+// Version 2 adds long strings (beyond any small-string fast path; two that differ only in the last byte).
+var longStrings = []string{strings.Repeat("k", 300) + "a", strings.Repeat("k", 300) + "b", strings.Repeat("é", 150), strings.Repeat("xy", 550)}
+var strPoolV2 = append(append([]string(nil), specialStrings...), longStrings...)
+
 func strPool() []string {
-	if curPool == 0 {
+	switch curPool {
+	case 0:
 		return specialStrings[:len(specialStrings)-12]
+	case 1:
+		return specialStrings
 	}
-	return specialStrings
+	return strPoolV2
 }
 
 func intPool() []int {
@@ -346,6 +353,53 @@ func floatDom(n int, cmpName string, off int, noNaN bool) *Dom[float64] {
 		d.Probes[4] = 9.125
 	}
 	return d
+}
+
+// anyDom: elements of type `any` with mixed dynamic types that are all comparable and all distinct under
+// == although several print alike (1, "1", int64(1), 1.0, uint8(1); two pointers to equal structs; nil).
+// Only for the sequence containers (lists, stacks, queues), which identify elements by == and never hash or
+// order them, and only in worlds that do not decode JSON into the element type.
+var anyPtrs = []*Item{{P: 1, ID: 1}, {P: 1, ID: 1}, {P: 2, ID: 0}}
+
+var anyPool = []any{1, "1", int64(1), 1.0, uint8(1), true, "true", nil, Item{P: 1, ID: 1}, anyPtrs[0], anyPtrs[1], [2]int{1, 2}, 'a', "a", struct{}{},
+	int8(-1), -1, "", 0, false, uint(0), anyPtrs[2], Item{}, [2]int{}, "<nil>", int32(1), 97, "97", 1.5, "1.5", [1]string{"1"}, complex(1, 0)}
+
+func anyStr(v any) string {
+	if p, ok := v.(*Item); ok {
+		for i, q := range anyPtrs {
+			if p == q {
+				return "ptr#" + strconv.Itoa(i)
+			}
+		}
+		return "ptr#other"
+	}
+	return fmt.Sprintf("%T(%#v)", v, v)
+}
+
+func anyDom(n int, off int) *Dom[any] {
+	d := &Dom[any]{Elem: "any", CmpName: "nat", Str: anyStr, Class: anyStr}
+	for i := 0; i < n; i++ {
+		if i < len(anyPool) {
+			d.Tab = append(d.Tab, anyPool[(i+off)%len(anyPool)])
+		} else {
+			d.Tab = append(d.Tab, 1000+i)
+		}
+	}
+	d.Cmp = func(a, b any) int { return strings.Compare(anyStr(a), anyStr(b)) }
+	d.Probes = []any{int8(1), "absent", 2.5, [2]int{9, 9}, uint64(1), &Item{P: 1, ID: 1}}
+	return d
+}
+
+func anyOK(prop, kind string) bool {
+	if prop != "C03" && prop != "C05" && prop != "C08" {
+		return false
+	}
+	return familyOf(kind) == "list" || familyOf(kind) == "sq"
+}
+
+func useAny(cfg *Cfg) {
+	cfg.Elem, cfg.Cmp, cfg.Ctor = "any", "nat", ""
+	cfg.Dom = min(cfg.Dom, 64)
 }
 
 func cmpsFor(elem string) []string {
